@@ -39,13 +39,13 @@ func init() {
 	})
 	register(&Prop{
 		ID:    "C10",
-		Rules: []func(*core.Ctx){RGuard, RPanic, RFatal, RNilMatch, RCatTable, rDirFoldOnly, RIdxSib, RGrowCmp, REmptyIter, RRuneWidth, RMakeArg, RLim5, RUnits},
+		Rules: []func(*core.Ctx){RGuard, RPanic, RFatal, RNilMatch, RCatTable, rDirFoldOnly, RIdxSib, RGrowCmp, REmptyIter, RRuneWidth, RMakeArg, RLim5, RUnits, RStartRange, RRuneIdx},
 		Explanation: "R-GUARD: abstract interpretation (lower bound on charsRight(), difference bounds for mirror variables, saved positions) over go/cfg of every function of package syntax that uses the parser's position primitives: each pattern read is proven to be preceded on every path by a sufficient length test; who-may-index p.pattern / who-may-write currentPos; _category index bounds. " +
 			"Decides the parser part of 'no panic on any pattern'. Not decided: index arithmetic outside the parser, non-termination.",
 	})
 	register(&Prop{
 		ID:    "C13",
-		Rules: []func(*core.Ctx){RLim, RLim5},
+		Rules: []func(*core.Ctx){RLim, RLim5, RQuickSame},
 		Explanation: "R-LIM1 who-may-allocate the backtracking stack and SSA proof that every allocation length is clamped by the limit; R-LIM2 who-may-read the limit and forward slice of its value (sizes, bounds, branch conditions, bool result only) plus the end-relative copy/shift shape; R-LIM3 error discipline of ensureStorage/goTo/backtrack/execute and single producer of ErrBacktrackingStackLimit; R-LIM4 push budget per opcode and per emitFragment path against the ensureStorage multiplier, capacity-check comparisons, who-writes runtrack[...]. " +
 			"These are the static ingredients of 'never more than L slots, never a panic, no other influence'. The runtime invariant (free >= K*TrackCount at each backward jump suffices until the next) is NOT proven.",
 	})
